@@ -13,12 +13,14 @@ import (
 	"sort"
 	"strings"
 	"syscall"
+	"time"
 
 	"github.com/whawty/auth/internal/verifev"
 	mc "github.com/whawty/auth/internal/verifmc"
 	"github.com/whawty/auth/internal/verifmc/vexec"
 	"github.com/whawty/auth/internal/verifmc/vhttp"
 	"github.com/whawty/auth/internal/verifmc/vsignal"
+	"github.com/whawty/auth/internal/verifmc/vtime"
 	"github.com/whawty/auth/internal/verifx"
 	lib "github.com/whawty/auth/store"
 )
@@ -56,6 +58,8 @@ func (o cop) String() string {
 		return fmt.Sprintf("setadmin(%s,%v)", o.User, o.Admin)
 	case "sighup":
 		return fmt.Sprintf("sighup(cfg%d)", o.Cfg)
+	case "sleep":
+		return fmt.Sprintf("sleep(%ds)", o.Cfg)
 	}
 	return o.Kind
 }
@@ -373,6 +377,9 @@ func (w *world) doOp(o cop) string {
 		return strings.Join(ks, ",") + "/" + errS(err)
 	case "check":
 		return errS(st.Check())
+	case "sleep":
+		vtime.Sleep(time.Duration(o.Cfg) * time.Second)
+		return "slept"
 	case "sighup":
 		w.installCfg(o.Cfg)
 		vsignal.Deliver("harness.sighup", syscall.SIGHUP)
